@@ -121,13 +121,8 @@ func c04FK(c *core.Ctx) {
 			c.Violate(rule, construct, cs.Instr.Pos(), "a second way to open a database: foreign keys (ON DELETE CASCADE) may be off for this connection")
 			continue
 		}
-		dsn := sx.Of(core.AsCall(cs.Instr).Args[1])
-		format := ""
-		dsn.Walk(func(t *core.Term) {
-			if t.Op == "const" && strings.Contains(t.Name, "file:") {
-				format = strings.Trim(t.Name, "\"")
-			}
-		})
+		// the DSN text, folded through Sprintf, concatenation, constants and static helpers (the path is a placeholder)
+		format := stmtText(core.AsCall(cs.Instr).Args[1], 0)
 		ok := false
 		if i := strings.Index(format, "?"); i >= 0 {
 			for _, kv := range strings.Split(format[i+1:], "&") {
@@ -277,9 +272,9 @@ func c04Trees(c *core.Ctx) {
 				return
 			}
 			cc := core.AsCall(i)
-			t := sx.Of(cc.Args[0]).String()
+			tk := sqlTokensUpper(stmtText(cc.Args[0], 0))
 			argsT := sx.Of(cc.Args[len(cc.Args)-1]).String()
-			if strings.Contains(t, "fmt.Sprintf(const(\"DELETE FROM %s WHERE block_num >= $1\")") && strings.Contains(t, "t.rootTable") &&
+			if len(tk) == 7 && tableMatches(tk[2], "TREE:ROOT") && tokensEqual(append(append([]string{}, tk[:2]...), tk[3:]...), "DELETE", "FROM", "WHERE", "BLOCK_NUM", ">=", "$1") &&
 				strings.Contains(argsT, "[const(0)]: firstReorgedBlock}") && stripIface(w.handle) == ssa.Value(tr.Params[1]) {
 				okStmt = true
 			}
